@@ -186,11 +186,17 @@ def run(tier, seed):
         viol.append({"property": "C11", "env": rec["policy"] + "/" + rec["env"], "monitor": f[1],
                      "inst": {"mode": rec["mode"], "row": rec["row"]}, "actions": rec["actions"],
                      "detail": "step %s reported %s reference %s" % (f[2] if len(f) > 2 else "", rec["lp"][:6], rec["ref"][:6])})
+    # non-autoregressive heat-map policies (DeepACO training path, NARGNN, AntSystem(require_logprobs) / get_logp)
+    from . import c15c_aco
+    va, ca = c15c_aco.violations(tier, seed, parts=("loglik",))
+    viol += [v for v in va if v["property"] == "C11"]
+    states += ca["states"]
     n_new, n_known = verdict.report("C11", viol)
     samples.append({"network_trace": {k: recs[0][k] for k in ("policy", "env", "mode", "actions", "lp", "ref")}} if recs else {})
     cov = {"states": states + st, "transitions": trans, "traces_validated_against_impl": nchk + len(recs), "samples": samples,
            "exhaustive": True, "stub_policy_rows_checked": nchk, "network_traces": len(recs), "known_finding_witnesses": n_known,
            "network_matrix": sorted({r["policy"] + "/" + r["env"] + "/" + r["mode"] for r in recs}),
+           "non_autoregressive": {k: v for k, v in ca.items() if k != "samples"},
            "explanation": "Decode wrapper (machine D) explored by TLC for a table policy over the TSP and CVRP models; real "
                           "ConstructivePolicy with the table as stub decoder run in all decode types and compared behaviour by "
                           "behaviour; neural policies validated by DecodeTrace.tla against an independent reference."}
